@@ -292,7 +292,7 @@ var skipped atomic.Int64
 
 func scale(d time.Duration) time.Duration {
 	if confirmed.Load() {
-		return d / 40
+		return d / 200
 	}
 	return d
 }
